@@ -7,7 +7,11 @@ Local Open Scope Z_scope.
 Inductive case :=
 | Port (text : string) (impl : option Z)              (* HealthPort / MpcConfig.Port, file or env loader *)
 | Dur (text : string) (impl : option Z)               (* a duration field; impl in nanoseconds *)
-| Chain (c : chain_in) (impl : chain_obs)             (* NewEVMConfig / NewSubstrateConfig / NewBtcConfig *)
+(* NewEVMConfig / NewSubstrateConfig / NewBtcConfig and the first start-block computation; [after] = what
+   the config object holds after it was USED as the application uses it (interval pointer handed to
+   chains.CalculateStartingBlock repeatedly, String()), compared field by field and by value with a
+   snapshot taken right after loading, and the results of the later start-block computations *)
+| Chain (c : chain_in) (impl : chain_obs) (after : option chain_after)
 | Net (v : Z) (impl : option Z)                        (* substrateNetwork through NewSubstrateConfig *)
 | Merge (locals shared : list obj) (impl : option (list obj))    (* processRawConfig *)
 (* string / bool / list settings of the relayer configuration or of one chain configuration, written
@@ -56,6 +60,25 @@ Definition chain_obs_eqb (a b : chain_obs) : bool :=
   | _, _ => false
   end.
 
+Fixpoint calcs_eqb (a b : list calc) : bool :=
+  match a, b with
+  | [], [] => true
+  | x :: a', y :: b' => calc_eqb x y && calcs_eqb a' b'
+  | _, _ => false
+  end.
+
+Definition after_eqb (a b : option chain_after) : bool :=
+  match a, b with
+  | Some x, Some y =>
+      chain_cfg_eqb (ca_cfg x) (ca_cfg y) && Bool.eqb (ca_rest_same x) (ca_rest_same y)
+      && calcs_eqb (ca_calcs x) (ca_calcs y)
+  | None, None => true
+  | _, _ => false
+  end.
+
+Definition n_calcs (a : option chain_after) : nat :=
+  match a with Some af => List.length (ca_calcs af) | None => O end.
+
 Definition obj_eqb (a b : obj) : bool :=
   forallb (fun kv : string * jv => opt_jv_eqb (lookup (fst kv) b) (Some (snd kv))) a
   && forallb (fun kv : string * jv => opt_jv_eqb (lookup (fst kv) a) (Some (snd kv))) b.
@@ -71,7 +94,9 @@ Definition agree (c : case) : bool :=
   match c with
   | Port t impl => opt_Z_eqb (parse_port t) impl
   | Dur t impl => opt_Z_eqb (parse_duration t) impl
-  | Chain ci impl => chain_obs_eqb (model_chain ci) impl
+  | Chain ci impl after =>
+      chain_obs_eqb (model_chain ci) impl
+      && after_eqb (model_after (model_chain ci) (n_calcs after)) after
   | Net v impl => opt_Z_eqb (parse_net v) impl
   | Merge l s impl =>
       match process l s, impl with
@@ -92,7 +117,7 @@ Definition judge (c : case) : bool :=
   match c with
   | Port t impl => port_ok t impl
   | Dur t impl => duration_ok t impl
-  | Chain ci impl => chain_ok ci impl
+  | Chain ci impl after => chain_ok ci impl && use_ok impl after
   | Net v impl => net_ok v impl
   | Merge l s impl => merge_ok l s impl
   | Strs ws impl => strs_ok ws impl
@@ -105,7 +130,7 @@ Definition tag (c : case) : N :=
   match c with
   | Port t _ => (0 + some_b (parse_port t))%N
   | Dur t _ => (2 + some_b (parse_duration t))%N
-  | Chain ci _ =>
+  | Chain ci _ _ =>
       (4 + 2 * match ci_kind ci with Evm => 0 | Sub => 1 | Btc => 2 end + some_b (model_chain ci))%N
   | Net v _ => (12 + some_b (parse_net v))%N
   | Merge l s _ => (10 + some_b (process l s))%N
